@@ -23,6 +23,10 @@ def run(F, R):
     # ---------------------------------------------------------------- R1 signer / verifier agreement
     R.rule("C17-R1", "the server signs the same digest the client verifies (SHA-256(SHA-256(req) || SHA-256(resp) || cup2key value)) and lays the ETag out as hex(DER signature):hex(SHA-256(req)), the order the client splits it in")
     from .. import optnorm
+    # "and for no other": the cup2key value both sides sign is "<key id>:<nonce>", and two exchanges differ in it only if
+    # the client's nonce prints injectively (64 zero-padded hex digits) — rule shared with C01-R3 / C03-R1
+    from . import c01 as _c01
+    _c01.nonce_display(R, "C17-R1", c, Wc)
     # the signing code may have been split into private helpers of make_etag: look for the digest there too, and read the
     # helper's parameters as the arguments make_etag passes
     dg_bv, dg_names = me, N
